@@ -33,7 +33,7 @@ from symx.src import ConSrc, SymSrc, witness
 from symx.values import SFloat, SInt, fpval
 
 _LSHIM = NpShim()
-IDS = ['A', 'B', 'C']
+IDS = ['A', 'B', 'C', 'D']
 
 
 MAX_CANDIDATES = 3  # IEEE confirmations + replays per configuration (further mismatching paths are only counted)
@@ -530,12 +530,14 @@ def _replay_construct(cfg, vals, lens):
 def configs(tier: str):
     out = []
     Bs = (0, 1, 2) if tier == 'quick' else (0, 1, 2, 3)
-    max_sub = 2 if tier == 'quick' else 3
+    max_sub = 2 if tier == 'quick' else 4
     for n_sub in range(1, max_sub + 1):
         ids = IDS[:n_sub]
         selections: list = [None]
         for r in range(0, n_sub + 1):
             for comb in itertools.permutations(ids, r):
+                if n_sub == 4 and list(comb) != sorted(comb) and list(comb) != sorted(comb, reverse=True):
+                    continue   # four submodels: every subset in insertion and in reversed order
                 selections.append(list(comb))
         if n_sub:
             selections.append([ids[0], 'nope'])
@@ -543,7 +545,7 @@ def configs(tier: str):
         for sel in selections:
             for own in (False, True):
                 for B in Bs:
-                    if B == 3 and (n_sub == 3 and sel is not None and len(sel) < 3):
+                    if B == 3 and (n_sub >= 3 and sel is not None and len(sel) < n_sub):
                         continue
                     for failures in ('raise', 'ignore'):
                         for t, offset in ((1, 'zero'), (-1, 'zero'), (0, 'sym')):
@@ -592,7 +594,7 @@ def main() -> int:
         rep, configs(tier), TWINS,
         functions=['fsic.core.linkers.BaseLinker.__init__', 'BaseLinker.solve_t', 'BaseLinker.evaluate_t',
                    'BaseLinker.LAGS/LEADS', 'fsic.core.models.BaseModel.solve_t (wrapper-law twin)'],
-        bounds={'submodels': f"0..{2 if tier == 'quick' else 3}, one check variable each", 'linker_check_variables': '0..1',
+        bounds={'submodels': f"0..{2 if tier == 'quick' else 4}, one check variable each", 'linker_check_variables': '0..1',
                 'max_iter': f"0..{2 if tier == 'quick' else 3}", 'selection': 'every ordered sub-selection + unknown ids + default',
                 'span_length': 3, 'values': 'every finite Float64 per iteration and cell', 'tol': 'any Float64',
                 'min_iter': 'symbolic 0..max_iter', 'offset': 'symbolic -L-1..L+1 or 0',
